@@ -554,38 +554,46 @@ Section Crypto.
     | None, u => Ok u
     end.
 
-  (* everything before an Ed25519 verification is attempted; key = Some kb when the COSE key is attached *)
+  (* the verification key: from the protected header's KID, or from the attached COSE key (key = Some kb) *)
+  Definition acquire_key (c : cose) (key : option bytes) : res ckey :=
+    match key with
+    | None =>
+        match lookup hkey_eqb (HA 4) (c_phdr c) with
+        | Some (CB vk) => key_of_kid vk
+        | Some _ => Err EUnmodelled
+        | None => Err EKeyError                                (* decoded_message.phdr[KID] *)
+        end
+    | Some kb => cosekey_decode kb
+    end.
+
+  (* everything before an Ed25519 verification is attempted.  NOTE the bytes that get verified: the
+     Sig_structure over the RE-SERIALISED parsed header (cose's phdr_encoded), not over c_prot. *)
   Definition cip8_pre (sm : bytes) (key : option bytes) : res pre :=
     bind (cose_decode sm) (fun c =>
-    bind (match key with
-          | None =>
-              match lookup hkey_eqb (HA 4) (c_phdr c) with
-              | Some (CB vk) => key_of_kid vk
-              | Some _ => Err EUnmodelled
-              | None => Err EKeyError                          (* decoded_message.phdr[KID] *)
-              end
-          | Some kb => cosekey_decode kb
-          end) (fun k =>
+    bind (acquire_key c key) (fun k =>
     Ok {| p_cose := c; p_key := k; p_tbs := sig_structure (reenc_hdr (c_phdr c)) (c_payload c) |})).
 
   (* the Ed25519 question verify asks, if it gets that far: (public key, message, signature) *)
   Definition long_key (p : pre) : bool := 32 <? lenN (k_x (p_key p)).
 
-  (* CoseKey.verify(OKPKey, alg, [VerifyOp]) then alg.verify *)
+  (* CoseKey.verify(OKPKey, alg, [VerifyOp]) *)
+  Definition alg_check (ka az : option Z) : res unit :=
+    match ka with
+    | Some k => match az with
+                | None => Err EAttributeError                  (* algorithm.identifier on None *)
+                | Some a => if (k =? a)%Z then Ok tt else Err ECoseIllegalAlgorithm
+                end
+    | None => Ok tt
+    end.
+  Definition ops_check (ops : list Z) : res unit :=
+    if (lenN ops =? 0) || zmem 2%Z ops then Ok tt else Err ECoseIllegalKeyOps.
+
+  (* ... then alg.verify *)
   Definition short_checks (p : pre) : res bytes :=            (* returns the signature bytes to check *)
     bind (get_alg (p_cose p)) (fun alg =>
     let az := match alg with Some a => int_of a | None => None end in
-    bind (match k_alg (p_key p) with
-          | Some ka => match az with
-                       | None => Err EAttributeError
-                       | Some a => if (ka =? a)%Z then Ok tt else Err ECoseIllegalAlgorithm
-                       end
-          | None => Ok tt
-          end) (fun _ =>
-    bind (match k_ops (p_key p) with
-          | [] => Ok tt
-          | ops => if zmem 2%Z ops then Ok tt else Err ECoseIllegalKeyOps
-          end) (fun _ =>
+    bind (alg_check (k_alg (p_key p)) az) (fun _ =>
+    bind (ops_check (k_ops (p_key p))) (fun _ =>
     match az with
     | None => Err EAttributeError                              (* None.verify *)
     | Some a =>
@@ -622,17 +630,21 @@ Section Crypto.
       if long_key p then (if ok then Ok true else Err EBadSignatureError) else Ok ok).
 
   (* ---------------- the rest of verify *)
+  (* Address.from_primitive accepts the raw bytes or the Bech32 text *)
+  Definition addr_value_bytes (av : cbor) : res bytes :=
+    match av with
+    | CB ab => Ok ab
+    | CT t => match bech32_dec t with Some ab => Ok ab | None => Err EUnmodelled end
+    | _ => Err EDeserializeException
+    end.
+
   Definition cip8_post (p : pre) (sv : bool) : res vresult :=
     let c := p_cose p in
     if negb (utf8_valid (c_payload c)) then Err EUnicodeDecodeError else
     match lookup hkey_eqb addr_key (c_phdr c) with
     | None => Err EKeyError
     | Some av =>
-        bind (match av with
-              | CB ab => parse_addr ab
-              | CT t => match bech32_dec t with Some ab => parse_addr ab | None => Err EUnmodelled end
-              | _ => Err EDeserializeException
-              end) (fun a =>
+        bind (bind (addr_value_bytes av) parse_addr) (fun a =>
         let kh := H28 (k_x (p_key p)) in
         let addresses_match :=
           match a_pay a with
